@@ -527,9 +527,35 @@ pub fn gen_history_cases(prop: &str, tier: &str, rng: &mut Rng, start: usize, n:
                     cfg.max_fanout = 1;
                 }
                 let h = gen::gen_history(&mut r, &themes, &cfg);
-                let docs = h.docs.into_iter().map(DocInput::from_dom).collect();
+                let docs: Vec<DocInput> = h.docs.into_iter().map(DocInput::from_dom).collect();
                 let opts = match prop {
-                    "C10" => option_grid(&mut r, if thorough { 48 } else { 24 }),
+                    "C10" => {
+                        let mut g = option_grid(&mut r, if thorough { 48 } else { 24 });
+                        // derive strings that name structs of this very output: an option must not interact with the names it meets
+                        let mut tree = None;
+                        for d in &docs {
+                            let d: &DocInput = d;
+                            if let crate::implrun::Step::Ok(e) = crate::implrun::step(&d.bytes, ReaderCfg::default_cfg(), tree.as_ref()) {
+                                tree = Some(e);
+                            }
+                        }
+                        if let Some(t) = &tree {
+                            if let Ok(txt) = crate::implrun::render(t, &OptRec::quick()) {
+                                let names: Vec<&str> = txt.lines().filter_map(|l| l.strip_prefix("pub struct ").and_then(|x| x.strip_suffix(" {"))).collect();
+                                if !names.is_empty() {
+                                    let a = names[r.below(names.len())];
+                                    let b = names[r.below(names.len())];
+                                    for (k, derive) in [a.to_string(), format!("Debug, {}", a), format!("{} , {}", a, b)].into_iter().enumerate() {
+                                        let n = g.len();
+                                        let mut o = g[(k + 3) % n].clone();
+                                        o.derive = derive;
+                                        g.push(o);
+                                    }
+                                }
+                            }
+                        }
+                        g
+                    }
                     "C04" => vec![OptRec::quick(), OptRec::quick_sorted(), OptRec::sxr()],
                     _ => vec![OptRec::quick(), OptRec::quick_sorted()],
                 };
